@@ -692,7 +692,6 @@ func Fingerprint(h *History, tr *Trace) string {
 	return strings.Join(parts, "|")
 }
 
-
 // Storm: for each of a series of fresh epochs, several runs over the same validators are released at the same
 // instant, so that they race to be the first to touch the epoch. Signing is counted, not carried out.
 func Storm(r *rand.Rand, epochs int) (findings []Finding, requests int) {
